@@ -289,3 +289,19 @@ def sizing_spacing_docs():
                 out.append('$\\' + p + sep + d + 'x$')
                 out.append('a\\' + p + sep + d)
     return out
+
+
+def definition_docs():
+    """\\newcommand-style definitions together with uses of the defined name - before and after the definition, with
+    fewer, as many and more groups than declared: the definition is data for LaTeX, not for this parser (the reading of
+    `\\R [0,1]` must not depend on a `\\newcommand{\\R}{..}` elsewhere in the document, or in another one)"""
+    out = []
+    defs = ['\\newcommand{\\%s}{\\mathbb{R}}', '\\newcommand{\\%s}[2]{a #1 b #2}', '\\renewcommand{\\%s}[1][d]{e #1}',
+            '\\providecommand\\%s{c}', '\\def\\%s{c}', '\\newcommand{\\%s}[0]{c}']
+    uses = ['\\%s', '\\%s [0,1]', '\\%s{u}', '\\%s{u}{v}{w}', '\\%s[o]{u}', '$\\%s [a]{b}$', '{\\%s x}']
+    for n in ('R', 'zq', 'pair'):
+        for d in defs:
+            for u in uses:
+                dd, uu = d.replace('%s', n), u.replace('%s', n)
+                out += [uu + ' ' + dd + ' ' + uu, dd + ' ' + uu, uu + '\n' + dd, '\\newcommand{\\unit}{' + uu + '} ' + dd]
+    return out
